@@ -51,6 +51,8 @@ def run_read(rows, flt, extra_columns, as_queries):
 def random_rows(rng: random.Random):
     rows = []
     ids = rng.sample(range(1, 60), rng.randint(1, 6))
+    if rng.random() < 0.15:       # ids that need more than 32 bits (CMapId is an int64 column)
+        ids = rng.sample([7, 7 + 2 ** 32, 2 ** 31 + 11, 2 ** 31, 2 ** 40 + 3, 123456, 2 ** 32 - 1], rng.randint(2, 5))
     for c in ids:
         n = rng.choice([0, 1, 2, 5, 12, 30])
         x = rng.choice([0, 0, rng.randint(0, 3000)])
@@ -64,6 +66,21 @@ def random_rows(rng: random.Random):
     rng.shuffle(rows)
     flt = [] if rng.random() < 0.4 else rng.sample(ids + [99], rng.randint(1, len(ids)))
     return {"rows": rows, "filter": sorted(set(flt))}
+
+
+def compress_ids(rec):
+    """TLC integers are 32-bit: when a molecule id does not fit, every id of the record (rows, filter, observed maps) is
+    replaced by its rank among all ids that occur in it (order and equality of ids are all C17 talks about)"""
+    ids = {r["cid"] for r in rec["rows"]} | set(rec["filter"]) | {o["id"] for o in rec["obs"]}
+    if all(-2 ** 31 < i < 2 ** 31 for i in ids):
+        return rec
+    rank = {v: k + 1 for k, v in enumerate(sorted(ids))}
+    out = dict(rec)
+    out["rows"] = [dict(r, cid=rank[r["cid"]]) for r in rec["rows"]]
+    out["filter"] = sorted(rank[i] for i in rec["filter"])
+    out["obs"] = [dict(o, id=rank[o["id"]]) for o in rec["obs"]]
+    out["ids_compressed"] = True
+    return out
 
 
 def run(ctx: Ctx):
@@ -110,7 +127,9 @@ def run(ctx: Ctx):
         ids = {r["cid"] for r in c["rows"]}
         if len(ids) >= 2 or c["filter"] or any(not [r for r in c["rows"] if r["cid"] == i and r["chan"]] for i in ids):
             ctx.nontrivial(repr(c))
-    verdicts, r = batch.validate("Trace_Cmap", "Trace_Cmap.cfg", ctx.workdir, records)
+    records = [compress_ids(x) if x["kind"] == "read" else x for x in records]
+    verdicts, r = batch.validate("Trace_Cmap", "Trace_Cmap.cfg", ctx.workdir,
+                                 [{k: v for k, v in x.items() if k != "ids_compressed"} for x in records])
     ctx.add_traces(len(records))
     ctx.notes["trace_validation"] = {"states": r.distinct, "wall_s": round(r.wall_s, 1), "from_tlc_exported_space": len(space)}
     for tid, (failed, drift) in sorted(verdicts.items()):
